@@ -430,6 +430,7 @@ type c34family struct {
 	mfsSet  []int
 	maxSet  int
 	rst     bool
+	rstOnly []int // stream indexes the client may reset (nil = all)
 	stall   bool
 }
 
@@ -487,7 +488,7 @@ func c34families(r *vk.Run) []c34family {
 		},
 		{
 			// SETTINGS_INITIAL_WINDOW_SIZE changed mid-connection (up, down, below what is in flight)
-			name: "set", depth: r.Pick(5, 7),
+			name: "set", depth: r.Pick(4, 7),
 			streams: c34two(false, []c34op{c34W9, c34F, c34RET}, []c34op{c34W4, c34RET}, 1),
 			prefix: func(m *c34model, ch *vk.Chooser) {
 				m.sendSettings(5, -1)
@@ -499,7 +500,7 @@ func c34families(r *vk.Run) []c34family {
 		{
 			// client RST_STREAM against queued / buffered / in-flight frames; stream 3 keeps its
 			// request body open (the server resets it after END_STREAM)
-			name: "rst", depth: r.Pick(5, 6),
+			name: "rst", depth: r.Pick(4, 6),
 			streams: c34two(true, []c34op{c34W9, c34F, c34RET}, []c34op{c34W9, c34RET}, 1),
 			prefix: func(m *c34model, ch *vk.Chooser) {
 				m.sendSettings(5, -1)
@@ -537,9 +538,42 @@ func c34families(r *vk.Run) []c34family {
 			iwsSet: []int{2}, maxSet: 1,
 		},
 		{
+			// 'conn' x 'rst': the connection window is drained to 1/5 and the stream windows are
+			// small (3), so DATA stays queued in the scheduler behind either limit; a stream is
+			// reset by the client while its DATA is queued; the other stream's window is then
+			// opened wide by the client, the connection window only by +3
+			name: "connrst", depth: r.Pick(4, 6),
+			streams: func() []*c34stream {
+				return []*c34stream{
+					{idx: 0, id: 3, path: "/s3", ops: []c34op{c34W9, c34RET}, maxWrites: 1, maxFlush: 0},
+					{idx: 1, id: 5, path: "/s5", ops: []c34op{c34W9, c34RET}, maxWrites: 1, maxFlush: 0},
+					{idx: 2, id: 1, path: "/drain"},
+				}
+			},
+			prefix: func(m *c34model, ch *vk.Chooser) {
+				left := []int{1, 5}[ch.Choose(2)]
+				if ch.Skipped {
+					return
+				}
+				m.hist = append(m.hist, fmt.Sprintf("CONN=%d", left))
+				m.sendSettings(100000, -1)
+				d := m.streams[2]
+				m.open(d)
+				d.script = []c34op{{"W", c34connWin0 - left}, c34RET}
+				d.retGiven = true
+				m.pump()
+				m.sendSettings(3, -1)
+				m.open(m.streams[0])
+				m.open(m.streams[1])
+			},
+			wus:     []c34wu{{0, 20}, {1, 20}, {-1, 3}},
+			rst:     true,
+			rstOnly: []int{0},
+		},
+		{
 			// large bodies: splitting at the maximum frame size, the untouched 65535 connection
 			// window binds, frames block half-written on a stalled client
-			name: "big", depth: r.Pick(5, 6),
+			name: "big", depth: r.Pick(4, 6),
 			streams: c34two(false, []c34op{c34Wbg, c34RET}, []c34op{c34Wbg}, 2),
 			prefix: func(m *c34model, ch *vk.Chooser) { c34openAll(m) },
 			wus:    []c34wu{{-1, 3}, {-1, 20000}},
@@ -613,9 +647,10 @@ func (m *c34model) events(f *c34family) []c34event {
 	if f.rst {
 		for _, s := range m.streams {
 			s := s
-			if !s.cliRST {
-				evs = append(evs, c34event{fmt.Sprintf("RST(%d)", s.id), func() { m.sendRST(s) }})
+			if s.path == "/drain" || s.cliRST || (f.rstOnly != nil && !c34has(f.rstOnly, s.idx)) {
+				continue
 			}
+			evs = append(evs, c34event{fmt.Sprintf("RST(%d)", s.id), func() { m.sendRST(s) }})
 		}
 	}
 	if f.stall {
@@ -628,20 +663,14 @@ func (m *c34model) events(f *c34family) []c34event {
 	return evs
 }
 
-// epilogue (the same for every execution): the client reads again, opens all windows wide and
-// every handler returns, so that whatever was still queued reaches the ledger.
+// epilogue (the same for every execution): the client reads again, every handler returns, the
+// stream windows are opened wide and only then the connection window, so that whatever was still
+// queued reaches the ledger while the connection window is the binding limit for as long as
+// possible.
 func (m *c34model) epilogue() {
 	if m.stalled {
 		m.setStall(false)
 		m.pump()
-	}
-	m.sendWU(nil, 1<<20)
-	m.pump()
-	for _, s := range m.streams {
-		if !s.cliRST {
-			m.sendWU(s, 1<<20)
-			m.pump()
-		}
 	}
 	for _, s := range m.streams {
 		if !s.retGiven {
@@ -650,6 +679,23 @@ func (m *c34model) epilogue() {
 		}
 	}
 	m.pump()
+	for _, s := range m.streams {
+		if !s.cliRST {
+			m.sendWU(s, 1<<20)
+			m.pump()
+		}
+	}
+	m.sendWU(nil, 1<<20)
+	m.pump()
+}
+
+func c34has(xs []int, x int) bool {
+	for _, v := range xs {
+		if v == x {
+			return true
+		}
+	}
+	return false
 }
 
 func c34exec(t *testing.T, r *vk.Run, f *c34family, ch *vk.Chooser, nth int64) {
@@ -762,7 +808,7 @@ func TestVerifC34(t *testing.T) {
 	// The internal deadline is split between the families (cumulative shares), so that a slow
 	// machine cuts every family short a little instead of dropping the last ones entirely.
 	budget, _ := strconv.ParseFloat(os.Getenv("VERIF_BUDGET_S"), 64)
-	share := map[string]float64{"win": 0.30, "drip": 0.40, "set": 0.60, "rst": 0.72, "conn": 0.88, "big": 1.0}
+	share := map[string]float64{"win": 0.28, "drip": 0.40, "set": 0.55, "rst": 0.65, "conn": 0.78, "connrst": 0.92, "big": 1.0}
 	start := time.Now()
 	for _, f := range c34families(r) {
 		f := f
